@@ -313,6 +313,14 @@ def thread_facts(tree, h, close_acts, nhook):
     need(len(nd) == 1, "Worker.run: pool.notify_done is not called exactly once after the job")
     for st in after:
         need(isinstance(st, (ast.Expr, ast.Assign)), "Worker.run: unrecognised statement after the job")
+    # ordering fact: the worker's job slot is cleared BEFORE the worker hands itself back to the pool (afterwards the
+    # accept loop may already have stored the next connection's job there)
+    clear = [i for i, st in enumerate(after) if isinstance(st, ast.Assign) and len(st.targets) == 1
+             and dotted(st.targets[0]) == "self.job"]
+    for i in clear:
+        need(isinstance(after[i].value, ast.Constant) and after[i].value.value is None, "Worker.run: self.job assigned something else than None")
+    done_at = after.index(nd[0])
+    job_cleared_first = all(i < done_at for i in clear)
     cleanup = cleanup + ["ASlot"]
     # refused handshake
     hc = find_func(mod, "handleConnection", "ClientConnectionJob")
@@ -335,7 +343,7 @@ def thread_facts(tree, h, close_acts, nhook):
         if isinstance(c, ast.Call) and (call_name(c) or "").endswith("SocketConnection"):
             need(len(c.args) == 1 and not c.keywords, "svr_threads creates a SocketConnection with extra arguments")
     return {"cleanup": cleanup, "reject": reject, "ends": ends, "handlers": handlers, "idle_timeout": True,
-            "sha": ast_sha(f) + ast_sha(w) + ast_sha(hc)}
+            "job_cleared_first": job_cleared_first, "sha": ast_sha(f) + ast_sha(w) + ast_sha(hc)}
 
 
 def mux_facts(tree, h, close_acts, nhook):
@@ -465,6 +473,8 @@ def gen_cleanup(tree):
     out += "(* thread server: finally-block of ClientConnectionJob.__call__, then Worker.run hands the worker back;\n"
     out += "   except branches of the request loop: %s *)\n" % "; ".join("%s -> %s" % ("|".join(c), "break" if b else "CONTINUES") for c, b in th["handlers"])
     out += shape_text("thread_shape", th, escapes_security, callback)
+    out += "(* Worker.run: no write to self.job after pool.notify_done(self) (a job dispatched to the just-idled worker is not overwritten) *)\n"
+    out += "Definition worker_job_cleared_before_handback : bool := %s.\n" % cbool(th["job_cleared_first"])
     out += "(* multiplex server: `if not active:` branch of events;\n"
     out += "   except branches of handleRequest: %s *)\n" % "; ".join("%s -> %s" % ("|".join(c), "False" if b else "TRUE") for c, b in mx["handlers"])
     out += shape_text("mux_shape", mx, escapes_security, callback)
